@@ -17,7 +17,7 @@ _T = "TornadoModel.C35."
 THEOREMS = [_T + n for n in (
     "inv_after", "disc_after", "maxsize_after", "conservation", "conservation_count", "size_le_maxsize",
     "order_fifo", "order_lifo", "order_prio", "no_assertion", "waiters_consistent", "finished_iff", "unfinished_eq",
-    "join_iff", "extra_task_done_raises", "task_done_le_puts",
+    "join_iff", "extra_task_done_raises", "task_done_le_puts", "getters_fifo", "putters_fifo",
 )]
 TRUSTED = [
     "heapq: heappop returns a minimum, heappush/heappop preserve the multiset (the model keeps the heap's content as a sorted list)",
@@ -39,7 +39,7 @@ CLAUSES = {
     "every successfully put item is returned by exactly one get or remains queued": "conservation + conservation_count (history variables tied by wrapping _put/_get)",
     "items come out in the queue's order": "order_fifo + order_lifo + order_prio",
     "the queue never holds more than maxsize items": "size_le_maxsize (op boundaries)",
-    "blocked getters and putters are served in arrival order": "tie only: Spec oracle (FIFO wait lists); waiters_consistent + no_assertion proved",
+    "blocked getters and putters are served in arrival order": "getters_fifo + putters_fifo (first live entry of the append-only deque) + waiters_consistent + no_assertion; end-to-end: tie (Spec oracle, FIFO wait lists)",
     "timed-out operations have no effect": "tie only: Spec oracle (a timed-out waiter just leaves its list)",
     "join completes exactly when every put has been matched by task_done": "finished_iff + unfinished_eq + join_iff; wake-up of pending joins at the last task_done: tie only",
     "extra task_done calls raise": "extra_task_done_raises + task_done_le_puts",
@@ -47,8 +47,8 @@ CLAUSES = {
 PARALLEL = True
 CASE_TIMEOUT = 120
 LEVEL_NOTE = ("exhaustive sub-domains: quick = every op sequence of length 3 over the 12-letter alphabet _A12 for 6 class/maxsize "
-              "configurations and of length 4 over _A7 for Queue(1)/PriorityQueue(1); thorough = length 4 over _A12 for 9 "
-              "configurations, length 5 over _A7, length 6 over _A5")
+              "configurations and of length 4 over _A7 for Queue(1)/PriorityQueue(1); thorough = length 3 over _A16 for 9 configurations, "
+              "length 4 over _A12 and length 5 over _A7 for maxsize-1 queues of each class, length 6 over _A5")
 
 _CLS = {"fifo": "Queue", "lifo": "LifoQueue", "prio": "PriorityQueue"}
 
@@ -337,10 +337,10 @@ def gen_cases(rng, tier):
         n_rand = 5000
     elif tier == "thorough":
         yield from _enum_cases(3, _A16, _C9)
-        yield from _enum_cases(4, _A12, _C9)
-        yield from _enum_cases(5, _A7, [("fifo", 1), ("lifo", 1), ("prio", 1), ("prio", 2)])
-        yield from _enum_cases(6, _A5, [("fifo", 1), ("lifo", 1), ("prio", 1), ("fifo", 2)])
-        n_rand = 60000
+        yield from _enum_cases(4, _A12, [("fifo", 1), ("lifo", 1), ("prio", 1)])
+        yield from _enum_cases(5, _A7, [("fifo", 1), ("lifo", 1), ("prio", 1)])
+        yield from _enum_cases(6, _A5, [("fifo", 1), ("prio", 1)])
+        n_rand = 30000
     else:
         n_rand = 4000
     for _ in range(n_rand):
